@@ -285,20 +285,24 @@ def _bigstr_unit(tag, n, width):
         head = f"{tag}{i:05d}:"
         return head + "".join(chr(97 + (i * 7 + k) % 26) for k in range(width - 1 - len(head)))
     rows = ",\n".join(f'  "{lit(i)}"' for i in range(n))
-    return (f'#include <string.h>\nstatic const char *const T_{tag}[{n}] = {{\n{rows}\n}};\n'
+    return (f'#include <string.h>\nstatic const char *const T_{tag}[{n}] = {{\n{rows}\n}};\nstatic const char hfmt_{tag}[] = "{tag}%05d:";\n'
             f'int check_{tag}(unsigned long *sum) {{\n  int bad = 0; char want[{width}];\n  for (int i = 0; i < {n}; i++) {{\n'
-            f'    int h = __builtin_sprintf(want, "{tag}%05d:", i);\n'
+            f'    int h = __builtin_sprintf(want, hfmt_{tag}, i);\n'
             f'    for (int k = 0; k < {width} - 1 - h; k++) want[h + k] = (char)(97 + (i * 7 + k) % 26);\n    want[{width} - 1] = 0;\n'
             f'    if (strcmp(T_{tag}[i], want)) bad++;\n    *sum = *sum * 31 + (unsigned char)T_{tag}[i][{width} - 2];\n  }}\n  return bad;\n}}\n')
 
 
 PINNED["big-string-tables"] = dict(
-    units=[("c", ["-O1", "-fpie"], '#include <stdio.h>\nextern int check_a(unsigned long *), check_b(unsigned long *), check_c(unsigned long *);\n'
-            'int main() { unsigned long s = 0; int bad = check_a(&s) + check_b(&s) + check_c(&s);\n'
-            '  printf("str m:bad = %d\\nstr m:sum = %lu\\n", bad, s); return 0; }\n'),
-           ("c", ["-O1", "-fpie"], _bigstr_unit("a", 2600, 64)),
+    # the table units come first and main has no string literal of its own (its format is a char array), so that
+    # the first table's strings start at offset 0 of the merged-string input and the work-slice boundaries
+    # (multiples of 140032 = 64 * 2188) fall exactly on string starts
+    units=[("c", ["-O1", "-fpie"], _bigstr_unit("a", 2600, 64)),
            ("c", ["-O1", "-fpie"], _bigstr_unit("b", 5000, 32)),
-           ("c", ["-O1", "-fpie"], _bigstr_unit("c", 1500, 128))],
+           ("c", ["-O1", "-fpie"], _bigstr_unit("c", 1500, 128)),
+           ("c", ["-O1", "-fpie"], '#include <stdio.h>\nextern int check_a(unsigned long *), check_b(unsigned long *), check_c(unsigned long *);\n'
+            'static const char fmt[] = "str m:bad = %d\\nstr m:sum = %lu\\n";\n'
+            'int main() { unsigned long s = 0; int bad = check_a(&s) + check_b(&s) + check_c(&s);\n'
+            '  printf(fmt, bad, s); return 0; }\n')],
     kinds=["static", "pie", "dyn"])
 
 PIN_KARGS = {"static": ["-static", "-no-pie"], "static-pie": ["-static-pie"], "pie": ["-pie"], "dyn": ["-no-pie"], "shared-nopie": ["-no-pie"]}
